@@ -115,7 +115,7 @@ def _table_writer(fname, expect, titled=False, arg=None, **kw):
         else:
             exp = ("text", expect)
         return (lambda p: obj.write(str(p), **kw)), exp
-    return "util.table.write[", fname, make, arg
+    return "util.table.write[", fname, make, {"arg": arg}
 
 
 def _da_writer(fname, expect, **kw):
@@ -132,39 +132,46 @@ def _tc_writer(kind, fname, expect):
     return "phylo.tree_collection.write[", fname, make
 
 
-def _raw_writer(how, fname):
+BIG_TEXT = "".join(f">s{i}\n{'ACGT' * 15}\n" for i in range(300))   # ~20 kB: more than one user-space buffer
+
+
+def _raw_writer(how, fname, text=AW_TEXT):
+    half = len(text) // 2
+
     def make():
-        from cogent3.util.io import atomic_write, open_, open_zip
+        from cogent3.util import io as cio
 
         def with_(p):
-            with atomic_write(p, mode="w") as f:
-                f.write("first line\n")
-                f.write("second line\n")
+            with cio.atomic_write(p, mode="w") as f:
+                f.write(text[:half])
+                f.write(text[half:])
 
         def noctx(p):
-            w = atomic_write(p, mode="w")
-            w.write("first line\n")
-            w.write("second line\n")
+            w = cio.atomic_write(p, mode="w")
+            w.write(text[:half])
+            w.write(text[half:])
             w.close()
 
         def open_w(p):
-            with open_(p, "w") as f:
-                f.write(AW_TEXT)
+            with cio.open_(p, "w") as f:
+                f.write(text)
 
         def openzip_noctx(p):
-            w = open_zip(p, "w")
-            w.write(AW_TEXT)
+            w = cio.open_zip(p, "w")
+            w.write(text)
             w.close()
 
         def in_zip(p):
             p = pathlib.Path(p)
-            with atomic_write(p.parent / p.name[:-4], in_zip=p, mode="w") as f:
-                f.write(AW_TEXT)
+            with cio.atomic_write(p.parent / p.name[:-4], in_zip=p, mode="w") as f:
+                f.write(text)
         fn = {"with": with_, "noctx": noctx, "open_w": open_w, "openzip_noctx": openzip_noctx, "in_zip": in_zip}[how]
-        return fn, ("text", AW_TEXT)
-    site = "util.io.open_zip[" if how in ("open_w", "openzip_noctx") and fname.endswith(".zip") else \
-        "util.io.open_[" if how == "open_w" else "util.io.atomic_write["
-    return site, fname, make
+        return fn, ("text", text)
+    site = "util.io.open_zip[" if how in ("open_w", "openzip_noctx") else "util.io.atomic_write["
+    opts = {"bare": how in ("noctx", "openzip_noctx")}
+    if how == "in_zip":
+        opts["view"] = "member-added"   # in_zip=<archive>: the write adds one member to an archive that has others
+    return site, fname, make, opts
 
 
 def _table_compress():
@@ -224,9 +231,9 @@ WRITERS = {
     "atomic_write/with.gz": _raw_writer("with", "out.txt.gz"),
     "atomic_write/with.zip": _raw_writer("with", "out.txt.zip"),
     "atomic_write/in_zip=path": _raw_writer("in_zip", "out.txt.zip"),
-    "open_/w": _raw_writer("open_w", "out.txt"),
-    "open_/w.gz": _raw_writer("open_w", "out.txt.gz"),
+    "atomic_write/in_zip=path-20kB": _raw_writer("in_zip", "out.txt.zip", BIG_TEXT),
     "open_zip/w": _raw_writer("open_w", "out.fasta.zip"),
+    "open_zip/w-20kB": _raw_writer("open_w", "out.fasta.zip", BIG_TEXT),
     "open_zip/write+close": _raw_writer("openzip_noctx", "out.fasta.zip"),
 }
 
@@ -240,19 +247,25 @@ def target_kind(fname):
     return "zip" if fname.endswith(".zip") else "gz" if fname.endswith(".gz") else "plain"
 
 
-def old_bytes(fname):
+def opts_of(wname):
+    w = WRITERS[wname]
+    return w[3] if len(w) > 3 else {}
+
+
+def old_bytes(fname, opts=None):
     kind = target_kind(fname)
     if kind == "gz":
         return gzip.compress(OLD_TEXT.encode(), mtime=0)
     if kind == "zip":
         buf = io.BytesIO()
         with zipfile.ZipFile(buf, "w") as z:
-            z.writestr(fname[:-4], OLD_TEXT)
+            # what an earlier write of the same path left; for in_zip=<archive>: an archive holding another member
+            z.writestr("other.txt" if (opts or {}).get("view") == "member-added" else fname[:-4], OLD_TEXT)
         return buf.getvalue()
     return OLD_TEXT.encode()
 
 
-def decode(raw, kind):
+def decode(raw, kind, opts=None, had_old=False):
     """independent reader: ('text', bytes) or ('other', why)"""
     try:
         if kind == "gz":
@@ -260,6 +273,13 @@ def decode(raw, kind):
         if kind == "zip":
             with zipfile.ZipFile(io.BytesIO(raw)) as z:
                 infos = z.infolist()
+                if (opts or {}).get("view") == "member-added" and had_old:
+                    names = [i.filename for i in infos]
+                    if len(infos) != 2 or names[0] != "other.txt":
+                        return "other", f"zip-archive-with-members-{names}"
+                    if z.read(infos[0]).decode() != OLD_TEXT:
+                        return "other", "zip-archive-other-member-changed"
+                    return "text", z.read(infos[1])
                 if len(infos) != 1:
                     return "other", f"zip-archive-with-{len(infos)}-members"
                 return "text", z.read(infos[0])
@@ -282,19 +302,21 @@ def is_new(data, expect):
     raise ValueError(mode)
 
 
-def classify(dest, pre, fname, expect):
+def classify(dest, pre, fname, expect, opts=None):
     if not dest.exists():
         return "absent", ""
     raw = dest.read_bytes()
     if pre is not None and raw == pre:
         return "old", ""
-    how, data = decode(raw, target_kind(fname))
+    how, data = decode(raw, target_kind(fname), opts, pre is not None)
     if how == "text":
         if is_new(data, expect):
             return "new", ""
         if len(raw) == 0:
             return "other", "empty-file"
         return "other", "neither-old-nor-new-content"
+    if len(raw) == 0:
+        return "other", "empty-file"
     return "other", data
 
 
@@ -328,7 +350,8 @@ def run_writer(wname, dest0, faults):
     warnings.filterwarnings("ignore")
     w = WRITERS[wname]
     fname = w[1]
-    arg = w[3] if len(w) > 3 and w[3] else fname
+    opts = opts_of(wname)
+    arg = opts.get("arg") or fname
     write, expect = w[2]()
     work = tempfile.mkdtemp(prefix="c19b_", dir=TMPBASE)
     try:
@@ -337,7 +360,7 @@ def run_writer(wname, dest0, faults):
         by.write_text(BYSTANDER)
         pre = None
         if dest0 == "old":
-            pre = old_bytes(fname)
+            pre = old_bytes(fname, opts)
             dest.write_bytes(pre)
         trace, kill_before = compile_faults(faults)
         script = R.Script(trace, kill_before=kill_before, full=True)
@@ -350,7 +373,7 @@ def run_writer(wname, dest0, faults):
             except BaseException as e:
                 outcome = f"raise {type(e).__name__}"
                 detail = str(e)[:120]
-        state, why = classify(dest, pre, fname, expect)
+        state, why = classify(dest, pre, fname, expect, opts)
         leftovers = sorted(norm_leftover(str(p.relative_to(root))) for p in root.rglob("*") if p not in (dest, by))
         return {"outcome": outcome, "dest": state, "why": why, "leftovers": leftovers,
                 "bystander": by.exists() and by.read_text() == BYSTANDER, "log": list(script.log),
@@ -417,7 +440,7 @@ def fault_pattern(faults, res):
     return "+".join(out) if out else "fault-free"
 
 
-def judge(dest0, faults, res):
+def judge(dest0, faults, res, opts=None):
     """list of symptoms (empty = the property statement holds for this run)"""
     sym = []
     killed = res["outcome"] == "killed"
@@ -436,7 +459,10 @@ def judge(dest0, faults, res):
         sym.append(f"destination-{res['dest']}-was-{prev}")
     if not res["bystander"]:
         sym.append("bystander-file-changed")
-    if res["leftovers"] and not killed and "shutil.rmtree" not in res["failed"]:
+    bare_abort = (opts or {}).get("bare") and res["failed"][:1] == ["file.write"]
+    # (write()+close() without a with-statement: after a failing write() nothing of the writer runs any more and
+    #  close() would commit, so cleaning up is not demanded of the bare protocol; the property's writers all use with)
+    if res["leftovers"] and not killed and "shutil.rmtree" not in res["failed"] and not bare_abort:
         sym.append("left-behind:" + ",".join(sorted(set(res["leftovers"]))))
     if res["unintercepted"]:
         sym.append("file-system-call-outside-the-intercepted-externals:" + ",".join(res["unintercepted"]))
@@ -451,7 +477,7 @@ def contract_faults(case):
             return ("skip",)
         if kind == "kill" and res["outcome"] != "killed":
             return ("skip",)
-    sym = judge(dest0, faults, res)
+    sym = judge(dest0, faults, res, opts_of(wname))
     if sym:
         pat = fault_pattern(faults, res)
         return ("fail", f"faults/{site_of(wname)}/{dest0}/{pat}/{sym[0]}",
